@@ -113,6 +113,10 @@ def run(run, tier, seed):
     run.assumptions = ["needletail parses the FASTA files the driver writes into the records the driver intended",
                        "TLC + CommunityModules Json reader", "the projection (packed integer -> base-4 digits) in skav"]
     design_and_replay(run, tier)
+    import extras
+    extras.sample_names(run, tier)          # Cli.tla: sample names from file names (drift only)
+    extras.arg_validation(run, tier)        # Cli.tla: argument validation, refusals, sub-sampling (drift only)
+    run.add_design(vlib.design_check("MC_SplitKmer", "MC_SplitKmer_live", "c01-live", workers=4, timeout=600))  # termination under fairness
     rng = random.Random(seed)
     cases = make_cases(rng, tier)
     events = drive(run, cases, "c01")
